@@ -1158,6 +1158,13 @@ class Sim:
             return ("value", UNK)
         if has("std::cmp::PartialEq::eq", "std::cmp::PartialEq::ne"):
             a, b = d[0], d[1]
+            # a comparison implemented in the analysed crates is evaluated from its own MIR, not answered structurally
+            # (a derived impl *is* structural equality and is answered here)
+            lf = self.find_fn(c["resolved"], c.get("resolved_crate")) if c.get("resolved") else None
+            if lf is not None and not lf.derived and c.get("resolved_kind", "Item") == "Item":
+                return None
+            if type(a) is not type(b) and not (isinstance(a, int) and isinstance(b, int)):
+                return ("value", UNK) if not (known(a) and known(b)) else None
             if known(a) and known(b) and not isinstance(a, (FnItem, Closure)) and _comparable(a) and _comparable(b):
                 r = a == b
                 return ("value", int(r if c.get("method") == "eq" else not r))
